@@ -47,6 +47,9 @@ MUTANTS = [
 	('c09-sort-descending-ties', 'C09', 'src/gambit/query.py',
 	 "closest = [GenomeMatch(db.genomes[i], dists[i]) for i in np.argsort(dists, kind='stable')[:params.report_closest]]",
 	 ["closest = [GenomeMatch(db.genomes[i], dists[i]) for i in (len(dists) - 1 - np.argsort(dists[::-1], kind='stable'))[:params.report_closest]]"]),
+	('c09-sort-key-rounded', 'C09', 'src/gambit/query.py',
+	 "closest = [GenomeMatch(db.genomes[i], dists[i]) for i in np.argsort(dists, kind='stable')[:params.report_closest]]",
+	 ["closest = [GenomeMatch(db.genomes[i], dists[i]) for i in np.argsort(np.round(dists, 6), kind='stable')[:params.report_closest]]"]),
 	('c16-header-sorted', 'C16', 'src/gambit/cli/dist.py',
 	 "dump_dmat_csv(output, dmat, query_ids, ref_ids)  # TODO different output formats", ["dump_dmat_csv(output, dmat, query_ids, sorted(map(str, ref_ids)))"]),
 	('c16-reference-files-in-completion-order', 'C16', 'src/gambit/sigs/calc.py',
@@ -67,6 +70,8 @@ MUTANTS = [
 	 "# Make flush a no-op", ["return super().flush(*args, **kwargs)"]),
 	('c18-commit-accepted', 'C18', 'src/gambit/db/sqla.py',
 	 "raise TypeError('Session is read-only')", ["self.rollback()"]),
+	('c18-commit-refused-only-when-dirty', 'C18', 'src/gambit/db/sqla.py',
+	 "raise TypeError('Session is read-only')", ["if not self._is_clean():", "\traise TypeError('Session is read-only')", "super().commit()"]),
 	('c18-sigfile-last-used-stamp', 'C18', 'src/gambit/sigs/hdf5.py',
 	 "h5file = h5.File(path, **kw)", ["kw.setdefault('mode', 'a')", "h5file = h5.File(path, **kw)", "h5file.attrs['last_opened_by'] = 'gambit'"]),
 	('c19-flush-after-presize', 'C19', 'src/gambit/sigs/hdf5.py',
